@@ -106,6 +106,7 @@ func Join() {
 	thr.active = true
 	thr.mu.Unlock()
 	var wg sync.WaitGroup
+	var panicked interface{}
 	for i, f := range fns {
 		wg.Add(1)
 		go func(id int, f func()) {
@@ -114,7 +115,13 @@ func Join() {
 			thr.ids[goid()] = id
 			thr.mu.Unlock()
 			defer func() {
+				// a panic in a thread would kill the whole replay binary: it is
+				// handed to the harness goroutine and raised there after the join
+				r := recover()
 				thr.mu.Lock()
+				if r != nil && panicked == nil {
+					panicked = r
+				}
 				if thr.running == id {
 					thr.running = 0
 				}
@@ -128,4 +135,7 @@ func Join() {
 	thr.mu.Lock()
 	thr.active = false
 	thr.mu.Unlock()
+	if panicked != nil {
+		panic(panicked)
+	}
 }
